@@ -111,16 +111,21 @@ def roundtrip_part(ctx: vlib.Ctx):
     from harness import gen, tycorr, tyoracle
     from mashumaro.codecs.basic import BasicDecoder, BasicEncoder
     ctx.theorems("props/C01_roundtrip.vo", ["C01_roundtrip", "C01_conf_ord_is_conf", "C01_roundtrip_codec", "C01_roundtrip_total"])
-    ctx.coqchk(["VerifProps.C01_roundtrip", "VerifProps.C01_tz"])
+    ctx.theorems("props/C01_ntdict.vo", ["C01_ntdict_roundtrip", "C01_ntdict_roundtrip_total"])
+    ctx.coqchk(["VerifProps.C01_roundtrip", "VerifProps.C01_tz", "VerifProps.C01_ntdict"])
     ctx.trusted.append("TyModel.v (cp/pk, cu/uk) tied by vm_compute correspondence; stdlib render/parse pairs are oracle functions whose "
                        "round-trip law is a hypothesis of the theorem restricted to the values present (atoms_ok)")
     ctx.assumptions.append("unions are decided under C11 (Literal types of int/str/bool/None constants are inside the Coq grammar; enum-member and bytes literals are not). Abstract / special collection classes (Sequence, Mapping, Deque, OrderedDict, DefaultDict (factory not part of the value), "
                            "MappingProxyType, Counter, ChainMap) and leaf/enum/bytes-typed mapping keys (under vals_ok: wire forms of the keys present pairwise distinct) are inside the Coq grammar. NamedTuple (as_list form), "
                            "TypedDict (total / total=False / Required / NotRequired) and tuples with an unpacked segment are inside the Coq grammar (theorems + correspondence); the round-trip "
                            "theorem states = on TypedDict values whose keys are in the decoder's order (conf_ord), the oracle compares with == on values "
-                           "in shuffled insertion order; namedtuple_as_dict (dialect option), generic NamedTuples/TypedDicts and collections.namedtuple are oracle only")
+                           "in shuffled insertion order; the as_dict form of a NamedTuple class at the top of a codec (class-specific serialization strategy; the option namedtuple_as_dict when the items "
+                           "reach no other NamedTuple) is modelled in TyNtDict.v over the item (un)packers of TyModel (C01_ntdict_roundtrip(_total) + correspondence); as_dict NamedTuples at nested "
+                           "positions / in holder dataclasses under the global option, generic NamedTuples/TypedDicts and collections.namedtuple are oracle only")
     cases, bad, log = tycorr.run(ctx, "c01_ty", ctx.budget(50, 400), 3, depth=3, foreign=1)
     hits = tyoracle.report_corr(ctx, "TyModel (pk, uk) vs BasicEncoder/BasicDecoder", cases, bad, log)
+    ncases, nbad, nlog = tycorr.run_nd(ctx, "c01_nd", ctx.budget(16, 120), foreign=1)
+    hits += tyoracle.report_corr(ctx, "TyNtDict (pk_nd, uk_nd) vs BasicEncoder/BasicDecoder under an as_dict dialect", ncases, nbad, nlog)
     n = ctx.budget(900, 6000) if not hits else ctx.budget(2500, 12000)
     for fam, ns, t, ty, sg in tyoracle.schema_stream(ctx.rng, n, literals=True):
         try:
